@@ -26,7 +26,7 @@ FACTOR = 20.0
 
 
 def floors(tier):
-    return {"runs": 400, "runs_with_bound_at_start": 150, "runs_with_active_bound_at_end": 150, "outward_start_runs": 60, "lattice_least_squares_runs": 60, "runs_with_inert_differencing_settings": 100, "runs_continued_from_a_target_stop": 150, "runs_with_user_step_cap_below_one": 60, "runs_preceded_by_another_problem_on_the_same_box": 150, "runs_with_free_optimum_grazing_a_bound": 60, "runs_in_30_to_90_dimensions_with_memory_above_10": 40, "__nontrivial__": 150}
+    return {"runs": 400, "runs_with_bound_at_start": 150, "runs_with_active_bound_at_end": 150, "outward_start_runs": 60, "lattice_least_squares_runs": 60, "runs_with_inert_differencing_settings": 100, "runs_continued_from_a_target_stop": 150, "runs_continued_from_a_target_already_met_at_the_start_point": 40, "runs_with_user_step_cap_below_one": 60, "runs_preceded_by_another_problem_on_the_same_box": 150, "runs_with_free_optimum_grazing_a_bound": 60, "runs_in_30_to_90_dimensions_with_memory_above_10": 40, "__nontrivial__": 150}
 
 
 def exhaustive(tier):
@@ -42,7 +42,8 @@ def cases(tier, seed):
                            boxes=("none", "mixed", "mixed", "boxed", "narrow", "lower", "upper", "boxed_degenerate", "nonneg", "unit", "zero_mixed"),
                            starts=("interior", "face", "vertex", "outward", "outward"))
         yield {"kind": "random", "problem": ps, "maxcor": int(rng.integers(1, 11)), "fd_step": float(gen.pick(rng, [1e-3, 1e-2, 0.1])) if i % 5 == 3 else None,
-               "target_frac": float(rng.uniform(0.05, 0.7)) if i % 3 == 0 else None, "restart_maxcor": int(rng.integers(1, 11)),
+               # (a fraction >= 1 is a target the start point already meets: the first leg returns at once, before any gradient is computed)
+               "target_frac": (float(rng.uniform(0.05, 0.7)) if i % 12 else float(gen.pick(rng, [1.0, 1.5]))) if i % 3 == 0 else None, "restart_maxcor": int(rng.integers(1, 11)),
                "step_cap": float(gen.pick(rng, [0.3, 0.5, 0.9])) if i % 10 == 4 else None, "twin_first": bool(i % 4 == 1)}
     for i in range(80 if tier == "quick" else 2500):
         # scale: dimensions, memories and active sets larger than the bulk of the cases
@@ -227,6 +228,8 @@ def run(spec):
             leg1 = probes.run_min(P, dict(cfg, ftarget=fs + spec["target_frac"] * (f0v - fs)))
             if leg1.result is not None and "TARGET" in str(leg1.result.message):
                 out.count("runs_continued_from_a_target_stop")
+                if spec["target_frac"] >= 1.0:
+                    out.count("runs_continued_from_a_target_already_met_at_the_start_point")
                 leg2 = probes.run_min(P, dict(cfg, maxcor=spec.get("restart_maxcor", spec["maxcor"])), checkpoint=leg1.result,
                                       x0=np.array(leg1.result.x, dtype=float, copy=True))
                 judge(out, P, leg2, where + " continued from a target stop")
